@@ -57,6 +57,7 @@ def make_script(verb, size, timing, env="plain"):
         line = {"RETR": "RETR big.bin", "STOR": "STOR up.bin", "APPE": "APPE f.txt", "LIST": "LIST", "MLSD": "MLSD d"}[verb]
         if env == "rest-pending":
             await ctl.cmd(c, "REST 3")  # the transfer about to be aborted was to start at an offset
+        ctl.notes["phase"] = "sending"
         await ctl.send(c, line)
         ctl.notes["phase"] = "sent"
         if timing == "never":
@@ -212,9 +213,13 @@ async def after_abor(ctl, state, res):
         if c.data is not None:
             c.data[1].transport.peer.release()
             await loop.settle()
+    # ABOR with nothing to abort, sent while a data connection the client has made is waiting for its transfer:
+    # that connection is not the ABOR's business - the follow-up transfer below uses it as it is
+    idle_data = state.get("phase") == "before" and state.get("pos") == "none" and c.data is not None and not ctl.notes.get("unread")
+    res["follow_uses_idle_data_connection"] = bool(idle_data)
     # drain / close our side of the data connection
     got_tail = b""
-    if c.data is not None:
+    if c.data is not None and not idle_data:
         dr, dw = c.data
         try:
             got_tail = await asyncio.wait_for(dr.read(), 5)
@@ -255,11 +260,14 @@ async def after_abor(ctl, state, res):
             # used is still parked at the server, and the harness has closed its end of it)
             reuse = bool(res.get("k", 0) % 2) and wd._get(conn_, "passive_server")[0] and res.get("pos") == "body"
             res["follow_reuses_listener"] = bool(reuse)
-            if not reuse:
+            if idle_data:
+                pass
+            elif not reuse:
                 ce, _, _, _ = await W.run_line(wd, c, b"EPSV")
                 if ce != [229]:
                     raise ConnectionError("EPSV after ABOR answered %r" % (ce,))
-            await W.data_connect(wd, c)
+            if not idle_data:
+                await W.data_connect(wd, c)
             c2, _, out2, _ = await W.run_line(wd, c, b"RETR /d/g.txt")
             c3, _, _, _ = await W.run_line(wd, c, b"QUIT")
         except (ConnectionError, OSError, asyncio.TimeoutError) as e:
@@ -276,7 +284,7 @@ def _job(args):
     for k in ks:
         try:
             r = SC.run_scenario(sc, k, inject_abor, after_abor)
-            out.append((k, {kk: r.get(kk) for kk in ("inside", "after_abor_undrained", "after_abor", "pos", "phase", "alive", "follow", "got", "stored", "server_data_closed", "skipped", "logged", "transcript", "notes", "follow_error")}))
+            out.append((k, {kk: r.get(kk) for kk in ("inside", "after_abor_undrained", "after_abor", "pos", "phase", "alive", "follow", "got", "stored", "server_data_closed", "skipped", "logged", "transcript", "notes", "follow_error", "follow_uses_idle_data_connection")}))
         except BaseException as e:  # noqa
             out.append((k, "HARNESS-ERROR %s: %s" % (type(e).__name__, e)))
     return idx, out
@@ -331,6 +339,8 @@ def oracle(spec, k, r):
             return {"input": inp, "what": "appended bytes are not old content + a prefix of the payload", "signature": "C14:not-a-prefix:appe"}
     fl = r.get("follow")
     if fl is None or fl[0] != [257] or fl[1] != [150, 226] or fl[2] != b"hello world" or fl[3] != [221]:
+        if r.get("follow_uses_idle_data_connection"):
+            return {"input": inp, "what": "ABOR with nothing to abort, sent while the data connection the client had made was waiting for its transfer: the transfer that then used it -> PWD/RETR/QUIT %r%s" % (fl, (" (%s)" % r["follow_error"]) if r.get("follow_error") else ""), "signature": "C14:idle-abor-takes-the-waiting-data-connection"}
         return {"input": inp, "what": "session not fully usable after ABOR: PWD/RETR/QUIT -> %r%s" % (fl, (" (%s)" % r["follow_error"]) if r.get("follow_error") else ""), "signature": "C14:follow-up-broken:%s" % verb.lower()}
     return None
 
